@@ -25,7 +25,7 @@ PY = "/venv/bin/python"
 
 
 def build_pool(r, tier):
-    n = 150 if tier == "quick" else 400
+    n = 260 if tier == "quick" else 500
     pool = []
     B = lambda k: ["builtin", k]  # noqa: E731
     texts = {
@@ -51,6 +51,30 @@ def build_pool(r, tier):
         pool.append({"cls": B(k), "op": "parse_format", "args": [good[0][0], good[0][1], good[1][1]]})
         if k not in ("envconst", "aserial", "adatetime"):
             pool.append({"cls": B(k), "op": "valid", "args": [good[0][0], good[0][1], good[1][0], good[1][1]]})
+    # repeated directives: the numbering of repeated captures (name, name__1, …) is a per-call counter
+    for k, text, fmt in (("serial", "12-12-12", "%n-%n-%n"), ("serial", "12-13", "%n-%n"), ("datetime", "2024 2024", "%Y %Y"), ("naming", "de de", "%a %a"),
+                         ("version", "1.1.1", "%m.%m.%m"), ("storage", "8 8", "%b %b"), ("aserial", "7 7", "%n %n")):
+        pool.append({"cls": B(k), "op": "gen_format", "args": [fmt]})
+        pool.append({"cls": B(k), "op": "parse", "args": [text, fmt, False]})
+        pool.append({"cls": B(k), "op": "parse", "args": [text, fmt, True]})
+    # subclasses with their own configuration, used before and after their parent
+    for sub, text in ((["subclass", "serial5"], "00042"), (["subclass", "serial2"], "42")):
+        pool.append({"cls": sub, "op": "parse", "args": [text, "%p", False]})
+        pool.append({"cls": sub, "op": "gen_format", "args": ["%p-%b"]})
+        pool.append({"cls": sub, "op": "regex", "args": []})
+        pool.append({"cls": sub, "op": "parse_format", "args": [text, "%p", "%p/%b"]})
+    pool.append({"cls": B("serial"), "op": "parse", "args": ["042", "%p", False]})
+    # a call that fails half way through gen_format (a known directive, then an unknown one), for every class
+    for k, text, fmt in (("datetime", "2024-01-01", "%Y-%m-%Q"), ("serial", "12-x", "%n-%Q"), ("naming", "de x", "%a %Q"), ("version", "1.2", "%m.%Q"), ("storage", "8 x", "%b %Q"),
+                         ("aserial", "12 x", "%n %Q"), ("adatetime", "2024 x", "%Y %Q")):
+        pool.append({"cls": B(k), "op": "parse", "args": [text, fmt, False]})
+        pool.append({"cls": B(k), "op": "gen_format", "args": [fmt]})
+    # two group classes with the same member names and different member classes, used with the same format string
+    for kinds in (("serial", "datetime"), ("naming", "datetime"), ("version", "serial"), ("serial", "serial")):
+        rec = ["group", [["id", kinds[0]], ["ts", kinds[1]]]]
+        pool.append({"cls": rec, "op": "gen_format", "args": ["{id}_{ts}"]})
+        pool.append({"cls": rec, "op": "parse", "args": ["42_20240131", "{id:%n}_{ts:%Y%m%d}", None]})
+        pool.append({"cls": rec, "op": "parse", "args": ["data_2024", "{id:%n}_{ts:%n}", None]})
     pool.append({"cls": B("serial"), "op": "arith", "args": ["12", "%n", 30]})
     pool.append({"cls": B("serial"), "op": "arith", "args": ["12", "%n", -30]})
     for k, s in (("ver", "1.2.3"), ("versemver", "1.2.3-rc.1+b"), ("verpkg", "1!1.2.3rc1"), ("verpkg", "not a version"), ("ver", "1.2")):
@@ -67,7 +91,7 @@ def build_pool(r, tier):
         decl = [(nm, k) for nm, k in corr_fmt.group_decl(r, r.randint(1, 3))]
         rec = ["group", decl]
         G = W.Registry().get(rec)
-        fmt, used = corr_fmt.group_fmt(r, decl)
+        fmt, used = corr_fmt.group_fmt(r, decl, repeats=True)
         vals = {nm: corr_fmt.rand_member_value(r, k) for nm, k in decl}
         try:
             text = G.from_value(vals).format(fmt)
@@ -96,7 +120,9 @@ def build_pool(r, tier):
 
 def fresh_outcomes(pool):
     """each item alone in a fresh interpreter"""
-    env = dict(os.environ, PYTHONPATH="/repo" + os.pathsep + os.path.join(VERIF, "harness"), PYTHONDONTWRITEBYTECODE="1")
+    import fmtutil
+    root = os.path.dirname(os.path.dirname(os.path.abspath(fmtutil.__file__)))   # the tree under test (/repo in a registered check)
+    env = dict(os.environ, PYTHONPATH=root + os.pathsep + os.path.join(VERIF, "harness"), PYTHONDONTWRITEBYTECODE="1")
 
     def one(it):
         p = subprocess.run([PY, os.path.join(VERIF, "harness", "c17_worker.py")], input=(json.dumps(it) + "\n").encode(), stdout=subprocess.PIPE, stderr=subprocess.PIPE, env=env, timeout=120)
@@ -155,7 +181,7 @@ def sweep(tier: str) -> Sweep:
         sw.note(["item", it], it["op"] + ("-err" if o.startswith("err:") else "-ok"))
         sw.check(not o.startswith("crash:"), "the fresh interpreter failed on the item", {"clause": "fresh", "item": it}, None, o)
     # sequential histories
-    for h in range(6 if tier == "quick" else 40):
+    for h in range(10 if tier == "quick" else 40):
         reg = W.Registry()
         order = [r.randrange(len(pool)) for _ in range(len(pool) * 2)]
         trail = []
